@@ -1075,12 +1075,13 @@ class slice(Stream):
         self._check_end()
 
     def update(self, x, who=None, metadata=None):
-        ret = None
-        if self.state >= self.star and (self.state - self.star) % self.step == 0:
-            ret = self._emit(x, metadata=metadata)
+        emit = self.state >= self.star and (self.state - self.star) % self.step == 0
+        # count the element before passing it on: a downstream that feeds back
+        # into this node (or fails) must find it counted already
         self.state += 1
         self._check_end()
-        return ret
+        if emit:
+            return self._emit(x, metadata=metadata)
 
     def _check_end(self):
         if self.end is not None and self.state >= self.end:
